@@ -1586,3 +1586,130 @@ random = _Random()
 
 def __getattr__(name):
     raise NotModelled('np.%s' % name)
+
+
+# ---------------------------------------------------------------------------
+# linear algebra: results are fresh matrices constrained by their defining
+# equations (as equalities between product terms; expanded by nra.py)
+# ---------------------------------------------------------------------------
+
+def _fresh_matrix(base, n, m, lower=False):
+    eng = E.cur()
+    k = eng.fresh_n.get('mat:' + base, 0)
+    eng.fresh_n['mat:' + base] = k + 1
+    rows = []
+    for i in range(n):
+        row = []
+        for j in range(m):
+            if lower and j > i:
+                row.append(0.0)
+            else:
+                row.append(eng.named('%s%d_%d_%d' % (base, k, i, j), 'real'))
+        rows.append(row)
+    return array(rows, dtype=float)
+
+
+def _assume_eq_matrix(a, b):
+    eng = E.cur()
+    fa, fb = asarray(a).flat_list(), asarray(b).flat_list()
+    for x, y in zip(fa, fb):
+        eng.assume(x == y)
+
+
+def _identity(n):
+    return array([[1.0 if i == j else 0.0 for j in range(n)]
+                  for i in range(n)], dtype=float)
+
+
+def _inv(m):
+    m = asarray(m)
+    if m.ndim != 2 or m.shape[0] != m.shape[1]:
+        raise ValueError('Last 2 dimensions of the array must be square')
+    n = m.shape[0]
+    if builtins.all(not is_sv(x) for x in m.flat_list()):
+        import numpy
+        r = numpy.linalg.inv(numpy.array(m.tolist(), dtype=float))
+        return array(r.tolist(), dtype=float)
+    r = _fresh_matrix('inv', n, n)
+    _assume_eq_matrix(einsum('ij,jk', m, r), _identity(n))
+    _assume_eq_matrix(einsum('ij,jk', r, m), _identity(n))
+    return r
+
+
+def _cholesky(m):
+    m = asarray(m)
+    n = m.shape[0]
+    low = _fresh_matrix('chol', n, n, lower=True)
+    eng = E.cur()
+    for i in range(n):
+        eng.assume(low[i, i] > 0)
+    _assume_eq_matrix(einsum('ij,kj', low, low), m)
+    return low
+
+
+def _slogdet(m):
+    m = asarray(m)
+    n = m.shape[0]
+    ts = [E._toreal(E.lift(x)) for x in m.flat_list()]
+    f = E.uf('SLOGDET%d' % n, *([E.R] * (n * n + 1)))
+    return (1.0, SV(f(*ts)))
+
+
+class _LinalgImpl(object):
+    inv = staticmethod(_inv)
+    cholesky = staticmethod(_cholesky)
+    slogdet = staticmethod(_slogdet)
+
+    def __getattr__(self, name):
+        raise NotModelled('np.linalg.%s' % name)
+
+
+linalg = _LinalgImpl()
+
+
+def average(a, weights=None, axis=None):
+    a = asarray(a)
+    if weights is None:
+        return mean(a, axis=axis)
+    w = asarray(weights)
+    if axis != 0 or a.ndim != 2:
+        raise NotModelled('average with these arguments')
+    tot = sum(w)
+    cols = []
+    for j in range(a.shape[1]):
+        s = None
+        for k in range(a.shape[0]):
+            t = w[k] * a[k, j]
+            s = t if s is None else s + t
+        cols.append(s / tot)
+    return array(cols, dtype=float)
+
+
+def cov(m, aweights=None, rowvar=True, bias=False):
+    m = asarray(m)
+    if rowvar or not bias or aweights is None or m.ndim != 2:
+        raise NotModelled('cov with these arguments')
+    w = asarray(aweights)
+    tot = sum(w)
+    mu = average(m, weights=w, axis=0)
+    d = m.shape[1]
+    out = []
+    for i in range(d):
+        row = []
+        for j in range(d):
+            s = None
+            for k in range(m.shape[0]):
+                t = w[k] * ((m[k, i] - mu[i]) * (m[k, j] - mu[j]))
+                s = t if s is None else s + t
+            row.append(s / tot)
+        out.append(row)
+    r = array(out, dtype=float)
+    return r if d > 1 else r.reshape(())
+
+
+def polyfit(*a, **k):
+    raise NotModelled('np.polyfit')
+
+
+def polyval(*a, **k):
+    raise NotModelled('np.polyval')
